@@ -150,6 +150,9 @@ func rawUsers() []confUser {
 		{Name: "nothing", Pass: "pw6", Raw: []string{}},
 		// a permission listed twice is still one permission
 		{Name: "twice", Pass: "pw7", Raw: []string{"present", "message", "present"}},
+		// several clients log in with this entry: what one of them is
+		// granted must not show up at, or disappear from, another
+		{Name: "shared", Pass: "pw8", Raw: []string{"message", "caption", "token"}},
 	}
 }
 
@@ -176,10 +179,28 @@ func genAuthzPlan(tp *simrt.Tape, seed uint64, tier string) any {
 		}
 		p.Ops = append(p.Ops, confOp{Kind: "join", C: c, Group: []string{"g1", "g1", "g2"}[tp.Draw(3)], User: u.Name, Pass: pw})
 	}
+	sharedMacro := p.Clients >= 3 && tp.Chance(1, 8)
 	for i := 0; i < p.Clients; i++ {
+		if sharedMacro && i < 3 {
+			continue
+		}
 		if tp.Chance(3, 4) {
 			join(i)
 		}
+	}
+	if sharedMacro {
+		// two clients of one entry of the description are granted different
+		// permissions by an operator
+		p.Ops = append(p.Ops,
+			confOp{Kind: "join", C: 0, Group: "g1", User: "olga", Pass: "pw-olga"},
+			confOp{Kind: "join", C: 1, Group: "g1", User: "shared", Pass: "pw8"},
+			confOp{Kind: "join", C: 2, Group: "g1", User: "shared", Pass: "pw8"},
+			confOp{Kind: "settle"})
+		subs := [][2]string{{"present", "op"}, {"op", "present"}, {"present", "present"}, {"op", "unshutup"}}[tp.Draw(4)]
+		p.Ops = append(p.Ops,
+			confOp{Kind: "useraction", C: 0, Sub: subs[0], Dest: 1},
+			confOp{Kind: "useraction", C: 0, Sub: subs[1], Dest: 2},
+			confOp{Kind: "settle"})
 	}
 	if tp.Chance(1, 2) {
 		p.Ops = append(p.Ops, confOp{Kind: "settle"})
